@@ -15,7 +15,8 @@ RULE = (
     "half of them with mean == t exactly; or arbitrary floats with mean <= t(1-1e-6)); IID = a law with <=3 atoms and rational "
     "probabilities, mean <= t, horizon L. The real test is run on EVERY distinct arrangement (all L-paths); M = min(overall p, "
     "min history); the check requires P(M<=v) <= v(1+1e-9) for every attained v<1. Non-trivial = population not constant, "
-    "some arrangement reaches p<1, and >= 24 arrangements/paths. distinct = canonical JSON of (configuration, population)."
+    "some arrangement reaches p<1, and >= 24 arrangements/paths. A third of the cases hand the draws over as the caller would hold "
+    "them (whole numbers as an integer-typed array). distinct = canonical JSON of (configuration, population)."
 )
 ASSUMPTIONS = [
     "parameter domains as for C11; eta in (t,u); populations are exactly null (premise verified with Fractions on the floats' exact values)",
@@ -24,7 +25,7 @@ ASSUMPTIONS = [
     "bounded: N <= 7 (arbitrary values), N <= 12 with <=3 distinct values, binary populations to N = 16; IID horizon <= 9",
 ]
 FIN = ["alpha-fixed", "alpha-shrink", "alpha-optcomp", "bet-fixed", "bet-agrapa", "kk", "sprt-fin"]
-IID = ["alpha-fixed-inf", "alpha-shrink-inf", "bet-fixed-inf", "bet-agrapa-inf", "km", "kw", "sprt-inf"]
+IID = ["alpha-fixed-inf", "alpha-shrink-inf", "bet-fixed-inf", "bet-agrapa-inf", "km", "kw", "sprt-inf", "alpha-optcomp-inf"]
 DY_U = {"alpha-optcomp": [1.0625, 1.125, 1.25, 1.5, 2.0]}
 
 
@@ -45,7 +46,7 @@ def shards(tier):
 
 @st.composite
 def _ut(draw, family):
-    if family == "alpha-optcomp":
+    if family.startswith("alpha-optcomp"):
         return draw(st.sampled_from(DY_U["alpha-optcomp"])), 0.5
     u = draw(st.sampled_from([1.0, 1.0, 1.0, 2.0, 1.5, 1.25, 0.75]))
     ts = [k / 8 for k in range(1, 16) if k / 8 < u]
@@ -111,15 +112,29 @@ def strategy(shard):
         cfg["N"] = N
         # an audit evaluates the same test object after every round: optionally look after k draws first
         rounds = draw(st.sampled_from([None, None, [draw(st.integers(1, N - 1))]]))
-        return {"cfg": cfg, "pop": [float(v) for v in pop], "regime": regime, "rounds": rounds}
+        return {"cfg": cfg, "pop": [float(v) for v in pop], "regime": regime, "rounds": rounds,
+                "rep": draw(st.sampled_from(["float", "float", "natural"]))}
 
     @st.composite
     def iid(draw):
-        u, t = draw(_ut(fam))
+        # how the caller holds the draws: a float array, or whole numbers as integers (0/1/2 assorter values are
+        # naturally an integer-typed array); whole-number laws are then generated on purpose
+        rep = draw(st.sampled_from(["float", "float", "natural"]))
+        if rep == "natural" and not fam.startswith("alpha-optcomp"):
+            u = draw(st.sampled_from([1.0, 2.0, 2.0, 3.0]))
+            ts = [j / 8 for j in range(1, 24) if j / 8 < u]
+            t = draw(st.sampled_from([0.5] + ts))
+        else:
+            u, t = draw(_ut(fam))
         cfg = draw(nonneg.config(fam, ut=(u, t), dyadic_g=True))
         k = draw(st.integers(2, 3))
         grid = [j / 8 for j in range(0, int(u * 8) + 1)]
-        atoms = draw(st.lists(st.sampled_from(grid + [0.0, u, t]), min_size=k, max_size=k, unique=True))
+        if rep == "natural":
+            whole = [float(j) for j in range(0, int(u) + 1)]
+            k = min(k, len(whole))
+            atoms = draw(st.lists(st.sampled_from(whole), min_size=k, max_size=k, unique=True))
+        else:
+            atoms = draw(st.lists(st.sampled_from(grid + [0.0, u, t]), min_size=k, max_size=k, unique=True))
         den = draw(st.sampled_from([d for d in [2, 3, 4, 5, 8, 10] if d >= k]))
         cuts = sorted(draw(st.lists(st.integers(1, den - 1), min_size=k - 1, max_size=k - 1, unique=True)))
         parts = [b - a for a, b in zip([0] + cuts, cuts + [den])]
@@ -137,7 +152,7 @@ def strategy(shard):
             probs[0] += Fraction(1, den)
         keep = [(a, p) for a, p in zip(atoms, probs) if p > 0]
         L = draw(st.integers(4, shard["maxL"]))
-        return {"cfg": cfg, "atoms": [float(a) for a, _ in keep], "probs": [f"{p.numerator}/{p.denominator}" for _, p in keep], "L": L}
+        return {"cfg": cfg, "atoms": [float(a) for a, _ in keep], "probs": [f"{p.numerator}/{p.denominator}" for _, p in keep], "L": L, "rep": rep}
 
     @st.composite
     def skewed(draw):
@@ -181,6 +196,11 @@ def evaluate(case, out):
     out.cls(cfg["family"])
     test = nonneg.make_test(cfg)
     ms = []
+    if case.get("rep") == "natural":
+        out.cls("whole-numbers-as-integers")
+        arr_of = nonneg.natural
+    else:
+        arr_of = lambda a: np.array(a, dtype=float)  # noqa: E731
     if "pop" in case:
         pop = case["pop"]
         N = len(pop)
@@ -199,7 +219,7 @@ def evaluate(case, out):
             m = 1.0
             try:
                 for k in list(rounds) + [N]:
-                    p, h = test.test(np.array(arr[:k], dtype=float))
+                    p, h = test.test(arr_of(arr[:k]))
                     h = np.asarray(h, dtype=float)
                     pm = float(p)
                     if h.size:
@@ -227,7 +247,7 @@ def evaluate(case, out):
 
         k = len(atoms)
         for idx in itertools.product(range(k), repeat=L):
-            x = np.array([atoms[i] for i in idx], dtype=float)
+            x = arr_of([atoms[i] for i in idx])
             pr = Fraction(1)
             for i in idx:
                 pr *= probs[i]
